@@ -85,6 +85,16 @@ def _mutated_attrs(repo: Repo, ci) -> Set[str]:
     return out
 
 
+def _is_container(v: ast.AST, mod=None, name=None) -> Optional[str]:
+    if isinstance(v, (ast.Dict, ast.DictComp)) or (isinstance(v, ast.Call) and isinstance(v.func, ast.Name) and v.func.id in ('dict', 'defaultdict', 'OrderedDict')):
+        return 'dict'
+    if isinstance(v, (ast.List, ast.ListComp)) or (isinstance(v, ast.Call) and isinstance(v.func, ast.Name) and v.func.id in ('list', 'deque')):
+        return 'list'
+    if isinstance(v, (ast.Set, ast.SetComp)) or (isinstance(v, ast.Call) and isinstance(v.func, ast.Name) and v.func.id == 'set'):
+        return 'set'
+    return None
+
+
 def _value_type_problem(repo: Repo, ann: Optional[ast.AST]) -> Optional[str]:
     """Why a parameter of this annotated type is not compared by value over all its fields (None = fine)."""
     if ann is None:
@@ -159,17 +169,50 @@ def run(chk):
                             f'{qual}: cached result is immutable',
                             f'`@{cached[0]}` on {qual} returns `{ret}`: every caller receives the SAME mutable object; the play engines remove played cards '
                             f'from hand sets in place, so a later call with equal arguments gets a consumed / foreign result')
-            # hand-written memo: `if k in D: return D[k]` on a module- or class-level dict
-            for n in ast.walk(fn):
-                if isinstance(n, ast.If) and isinstance(n.test, ast.Compare) and len(n.test.ops) == 1 and isinstance(n.test.ops[0], ast.In) and \
-                        n.body and isinstance(n.body[0], ast.Return) and isinstance(n.body[0].value, ast.Subscript):
-                    holder = n.test.comparators[0]
-                    if ast.unparse(holder) == ast.unparse(n.body[0].value.value):
-                        base = holder
-                        is_global = isinstance(base, ast.Name) and base.id in mod.constants
-                        is_classlevel = isinstance(base, ast.Attribute) and c is not None and base.attr in c.assigns
-                        if is_global or is_classlevel:
-                            raise AnalysisError(rule, qual, f'hand-written memo table `{ast.unparse(holder)}` at {repo.where(m, n)}: soundness of the cache is not analysed')
+            # ---- M1b: hand-written memo table: every input the cached value depends on must be part of the key -------------
+            stores = [n for n in ast.walk(fn) if isinstance(n, ast.Assign) and len(n.targets) == 1 and isinstance(n.targets[0], ast.Subscript)
+                      and isinstance(n.targets[0].value, ast.Name) and n.targets[0].value.id in mod.constants
+                      and _is_container(mod.constants[n.targets[0].value.id], mod, n.targets[0].value.id) == 'dict']
+            for st in stores:
+                table = st.targets[0].value.id
+                reads = [n for n in ast.walk(fn) if (isinstance(n, ast.Subscript) and isinstance(n.ctx, ast.Load) and isinstance(n.value, ast.Name) and n.value.id == table) or
+                         (isinstance(n, ast.Call) and isinstance(n.func, ast.Attribute) and n.func.attr == 'get' and isinstance(n.func.value, ast.Name) and n.func.value.id == table) or
+                         (isinstance(n, ast.Compare) and any(isinstance(c, ast.Name) and c.id == table for c in n.comparators))]
+                if not reads:
+                    continue        # a registry that is only written here, not a memo
+                defs = {}
+                for n in ast.walk(fn):
+                    if isinstance(n, ast.Assign) and len(n.targets) == 1 and isinstance(n.targets[0], ast.Name):
+                        defs.setdefault(n.targets[0].id, []).append(n.value)
+                key = st.targets[0].slice
+                if isinstance(key, ast.Name) and len(defs.get(key.id, [])) == 1:
+                    key_def = defs[key.id][0]
+                else:
+                    key_def = key
+                key_atoms = {ast.unparse(e) for e in (key_def.elts if isinstance(key_def, ast.Tuple) else [key_def])}
+                pnames = {a.arg for a in fn.args.args + fn.args.kwonlyargs} - {'self', 'cls'}
+                needed = {}
+                key_nodes = set(map(id, ast.walk(key_def)))
+                for n in ast.walk(fn):
+                    if isinstance(n, ast.Name) and n.id in pnames and isinstance(n.ctx, ast.Load) and id(n) not in key_nodes:
+                        cur = n
+                        from ..index import parent as _parent
+                        par = _parent(cur)
+                        whole = False
+                        while isinstance(par, ast.Attribute) and par.value is cur:
+                            nxt = _parent(par)
+                            if isinstance(nxt, ast.Call) and nxt.func is par:
+                                whole = True        # a method of the parameter may read any of its fields
+                                break
+                            cur, par = par, nxt
+                        atom = n.id if whole else ast.unparse(cur)
+                        needed.setdefault(atom, n)
+                uncovered = [a for a in needed if not any(a == k or a.startswith(k + '.') for k in key_atoms)]
+                # a parameter that only takes part in asserts / emptiness tests before the lookup still selects the value; keep it simple: all uses count
+                chk.require(not uncovered, rule, repo.where(m, st), qual, f'memo table {table} keyed by ({", ".join(sorted(key_atoms))})',
+                            f'{qual}: every input the cached value depends on is part of the key of `{table}`',
+                            f'`{table}` caches the result of {qual} under ({", ".join(sorted(key_atoms))}) but the value also depends on '
+                            f'{sorted(uncovered)}: a later call that differs only there is answered with the first caller\'s result')
         # ---- M2: class-level mutable containers mutated through self ----------------------------------------------------------
         for c in mod.classes.values():
             if c.is_enum or c.is_namedtuple or c.is_dataclass:
@@ -205,6 +248,40 @@ def run(chk):
                     chk.fail(rule, repo.where(mod, n), f'{c.name}.{mn}', f'class-level `{c.name}.{name}` mutated in place',
                              f'`{name}` is a mutable container created once in the body of class {c.name} and never re-bound per instance in __init__, yet '
                              f'`{ast.unparse(n)[:60]}` mutates it in place: every {c.name} instance (each board, each replica) shares and corrupts the same object')
+        # ---- M4: module-level containers reordered / emptied in place by a function (directly or through a local alias) ---------
+        shared = {n: _is_container(v) for n, v in mod.constants.items() if _is_container(v) in ('list', 'set')}
+        if shared:
+            for m, c, fn in repo.all_functions():
+                if m is not mod:
+                    continue
+                qual = f'{c.name}.{fn.name}' if c is not None else f'{rel}:{fn.name}'
+                alias = {}
+                for n in ast.walk(fn):
+                    if isinstance(n, ast.Assign) and len(n.targets) == 1 and isinstance(n.targets[0], ast.Name) and isinstance(n.value, ast.Name) and n.value.id in shared:
+                        alias[n.targets[0].id] = n.value.id
+
+                def root(e):
+                    while isinstance(e, ast.Subscript):
+                        e = e.value
+                    if isinstance(e, ast.Name):
+                        return e.id if e.id in shared else alias.get(e.id)
+                    return None
+                for n in ast.walk(fn):
+                    hit = None
+                    if isinstance(n, ast.Call) and isinstance(n.func, ast.Attribute) and n.func.attr in MUTATOR_METHODS and root(n.func.value):
+                        hit = root(n.func.value)
+                    elif isinstance(n, ast.Call) and ast.unparse(n.func) in ('random.shuffle', 'shuffle', 'heapq.heappush', 'heapq.heappop', 'heapq.heapify') and n.args and root(n.args[0]):
+                        hit = root(n.args[0])
+                    elif isinstance(n, (ast.Assign, ast.AugAssign, ast.Delete)):
+                        for t in (n.targets if isinstance(n, (ast.Assign, ast.Delete)) else [n.target]):
+                            if isinstance(t, ast.Subscript) and root(t):
+                                hit = root(t)
+                            if isinstance(n, ast.AugAssign) and isinstance(t, ast.Name) and root(t):
+                                hit = root(t)
+                    if hit:
+                        chk.fail(rule, repo.where(m, n), qual, f'module-level `{hit}` mutated in place by {qual}',
+                                 f'`{ast.unparse(n)[:70]}` mutates the module-level container `{hit}` in place: every call (and every thread - the server deals while '
+                                 f'other code may deal too) works on the same object, so a result taken from it can change under the caller\'s hands')
         # ---- M3: mutable default arguments mutated in the body ------------------------------------------------------------------
         for m, c, fn in repo.all_functions():
             if m is not mod:
